@@ -216,10 +216,22 @@ CHECKS = {
              "data equality is not compared. " + ENGINE_NOTE,
         technique="solver-based relational (twin-run) symbolic execution of the real service (z3)",
     ),
+    "C15": dict(
+        category="model_checking",
+        text="Partial claim. (1) compute_capital_cost / compute_annual_capital_cost / compute_capital_recovery_factor / "
+             "get_capital_cost_targets executed symbolically with area, cost factors and discount rate as z3 reals: C = N(a + b (A/N)^c), "
+             "annualised = C x CRF, CRF x sum_k (1+i)^-k = 1 (rational-function identity for concrete lives), both strictly increasing in "
+             "area (x^c as a monotone uninterpreted function). (2) pipeline sweeps with balanced curves on: balanced hot and cold "
+             "composite curves are process + utility columns and have equal enthalpy spans on the shifted and the real table.",
+        design_ref="5/C15, 8",
+        note="NOT covered: the area integral of get_area_targets (np.interp / make_monotonic epsilon offsets / 6-dp enthalpy rounding around "
+             "log-mean differences of ratios of unknowns -- no linear family, NRA+UF returns unknown) and the exchanger-count heuristic; the "
+             "LMTD clauses are decided under C20. " + ENGINE_NOTE,
+        technique="solver-based symbolic execution of the real code (z3; power law as monotone uninterpreted function, annuity as rational identity)",
+    ),
 }
 
 NOT_YET = {
-    "C15": "not applicable to solver-based checking within reach: get_area_targets mixes np.interp / make_monotonic epsilon offsets / 6-dp rounding of enthalpies with log of ratios of unknowns (jointly symbolic temperatures and duties inside transcendental functions: NRA+UF queries return unknown); the LMTD clause is decided under C20; see DESIGN.md section 8",
     "C18": "not applicable: every state point comes from CoolProp's compiled AbstractState; an uninterpreted equation-of-state contract that is both true for every refrigerant and strong enough for the second-law clauses could not be stabilised (impossible-fluid countermodels are not replayable); see DESIGN.md section 8",
 }
 
